@@ -11,8 +11,12 @@ CLAIMS = {
   ref="DESIGN.md section 5 C01, section 4"),
  "C02": dict(
   text="every closure created by the compile functions of assignment and compound assignment to a variable (var_set.go, var_ops.go: varSetConst, varSetExpr, var{Add,Sub,Mul,Quo,Rem,And,Or,Xor,Andnot}{Const,Expr}; about 5400 obligations) is proved to store Go's result of the operation, in the variable's kind, into the slot of the right frame / storage class / width, to evaluate the right-hand side exactly once, to return the next statement, and to leave every other slot, frame and heap cell unchanged; for all values and all environments",
-  note="trusted: reflect.Value accessor/setter specs, double-rounding and narrow-division lemmas, xreflect.Type.Kind purity, go/ssa front end, SMT solvers. Not covered (no contract): places other than variables (place_*.go), shift-assignments, varQuoPow2, setVar/setPlace dispatch, multi-assignment ordering (assign2/assignMulti), IncDec, non-basic kinds of varSet* (closure partial), composition with the rest of the program",
+  note="trusted: reflect.Value accessor/setter specs, double-rounding and narrow-division lemmas, xreflect.Type.Kind purity, go/ssa front end, SMT solvers. The dispatch of setVar / setPlace is under contract (each compile function is reached only under its own operator; no Go assignment operator with compatible operands ends in a compile error). Not covered (no contract): the closures for places other than variables (place_*.go) and for shift-assignments, varQuoPow2, multi-assignment ordering (assign2/assignMulti), IncDec, non-basic kinds of varSet* (closure partial), composition with the rest of the program",
   ref="DESIGN.md section 5 C02"),
+ "C05": dict(
+  text="the control-transfer closure shared by break, continue and goto (Comp.jumpOut: depth 0, 1, 2 and the generic loop) is proved to leave exactly upn frames, to continue at the statement index the label holds when the jump runs, in that frame, and to change nothing else - for all environments; Comp.Goto is proved to find a label declared in the scope of the goto or in a scope around it up to and including the function's own (stated up to two scopes out, loop verified for any depth) and never to end in 'label not found' for such a label",
+  note="trusted: go/ssa front end, SMT solvers, frame-chain model (up()). Not covered: every other control construct (if/for/switch/select/range layout and closures, label resolution of break/continue, jump tables), forward goto (documented limitation), composition into programs",
+  ref="DESIGN.md section 0.1, section 5 C05"),
  "C06": dict(
   text="second sentence of the property (a recycled frame is never observable): freeEnv, newEnv, NewEnv, FreeEnv, freeEnv4Func, MarkUsedByClosure are verified against a representation invariant of Run.Pool (poolOK: pooled frames are distinct, not captured by a closure, no escaped slot address, detached) - a frame marked UsedByClosure is never pooled and keeps its slots; a frame whose slot address was taken gives up its Ints array before pooling; newEnv hands out a frame that is no longer in the pool; memory safety of the pool indices",
   note="trusted: go/ssa front end, SMT solvers, heap model (type-based field arrays). Not covered: first sentence (call results equal compiled Go: call*.go / func*ret*.go specialisations), that each function-creating closure marks its frame and frees it exactly once (typestate over func0ret0..), newEnv4Func, Var.Address setting IntAddressTaken",
